@@ -785,241 +785,109 @@ pub fn type_choices_from_group_choice<'a>(
   type_choices
 }
 
-/// Is the given identifier associated with a null data type
-pub fn is_ident_null_data_type(cddl: &CDDL, ident: &Identifier) -> bool {
-  if let Token::NULL | Token::NIL = lookup_ident(ident.ident) {
-    return true;
+/// Does `is_kind` hold for `ident` or for a type name reachable from it through
+/// alias rules (a rule one of whose alternatives is a bare type name)? Every
+/// rule name is followed at most once per path, so reference cycles
+/// (`a = b .size 3`, `b = a`) terminate.
+fn alias_chain_any(cddl: &CDDL, ident: &Identifier, is_kind: &dyn Fn(&Identifier) -> bool) -> bool {
+  fn chase<'a>(
+    cddl: &'a CDDL<'a>,
+    ident: &Identifier,
+    is_kind: &dyn Fn(&Identifier) -> bool,
+    path: &mut Vec<&'a str>,
+  ) -> bool {
+    if is_kind(ident) {
+      return true;
+    }
+
+    cddl.rules.iter().any(|r| match r {
+      Rule::Type { rule, .. } if &rule.name == ident => {
+        if path.contains(&rule.name.ident) {
+          return false;
+        }
+
+        path.push(rule.name.ident);
+        let found = rule.value.type_choices.iter().any(|tc| {
+          if let Type2::Typename { ident, .. } = &tc.type1.type2 {
+            chase(cddl, ident, is_kind, path)
+          } else {
+            false
+          }
+        });
+        path.pop();
+
+        found
+      }
+      _ => false,
+    })
   }
 
-  cddl.rules.iter().any(|r| match r {
-    Rule::Type { rule, .. } if &rule.name == ident => rule.value.type_choices.iter().any(|tc| {
-      if let Type2::Typename { ident, .. } = &tc.type1.type2 {
-        is_ident_null_data_type(cddl, ident)
-      } else {
-        false
-      }
-    }),
-    _ => false,
-  })
+  chase(cddl, ident, is_kind, &mut Vec::new())
+}
+
+/// Is the given identifier associated with a null data type
+pub fn is_ident_null_data_type(cddl: &CDDL, ident: &Identifier) -> bool {
+  alias_chain_any(cddl, ident, &|ident| matches!(lookup_ident(ident.ident), Token::NULL | Token::NIL))
 }
 
 /// Is the given identifier associated with a boolean data type
 pub fn is_ident_bool_data_type(cddl: &CDDL, ident: &Identifier) -> bool {
-  if let Token::BOOL = lookup_ident(ident.ident) {
-    return true;
-  }
-
-  cddl.rules.iter().any(|r| match r {
-    Rule::Type { rule, .. } if &rule.name == ident => rule.value.type_choices.iter().any(|tc| {
-      if let Type2::Typename { ident, .. } = &tc.type1.type2 {
-        is_ident_bool_data_type(cddl, ident)
-      } else {
-        false
-      }
-    }),
-    _ => false,
-  })
+  alias_chain_any(cddl, ident, &|ident| matches!(lookup_ident(ident.ident), Token::BOOL))
 }
 
 /// Does the given boolean identifier match the boolean value
 pub fn ident_matches_bool_value(cddl: &CDDL, ident: &Identifier, value: bool) -> bool {
-  if let Token::TRUE = lookup_ident(ident.ident) {
-    if value {
-      return true;
-    }
-  }
-
-  if let Token::FALSE = lookup_ident(ident.ident) {
-    if !value {
-      return true;
-    }
-  }
-
-  cddl.rules.iter().any(|r| match r {
-    Rule::Type { rule, .. } if &rule.name == ident => rule.value.type_choices.iter().any(|tc| {
-      if let Type2::Typename { ident, .. } = &tc.type1.type2 {
-        ident_matches_bool_value(cddl, ident, value)
-      } else {
-        false
-      }
-    }),
+  alias_chain_any(cddl, ident, &|ident| match lookup_ident(ident.ident) {
+    Token::TRUE => value,
+    Token::FALSE => !value,
     _ => false,
   })
 }
 
 /// Is the given identifier associated with a URI data type
 pub fn is_ident_uri_data_type(cddl: &CDDL, ident: &Identifier) -> bool {
-  if let Token::URI = lookup_ident(ident.ident) {
-    return true;
-  }
-
-  cddl.rules.iter().any(|r| match r {
-    Rule::Type { rule, .. } if &rule.name == ident => rule.value.type_choices.iter().any(|tc| {
-      if let Type2::Typename { ident, .. } = &tc.type1.type2 {
-        is_ident_uri_data_type(cddl, ident)
-      } else {
-        false
-      }
-    }),
-    _ => false,
-  })
+  alias_chain_any(cddl, ident, &|ident| matches!(lookup_ident(ident.ident), Token::URI))
 }
 
 /// Is the given identifier associated with a b64url data type
 pub fn is_ident_b64url_data_type(cddl: &CDDL, ident: &Identifier) -> bool {
-  if let Token::B64URL = lookup_ident(ident.ident) {
-    return true;
-  }
-
-  cddl.rules.iter().any(|r| match r {
-    Rule::Type { rule, .. } if &rule.name == ident => rule.value.type_choices.iter().any(|tc| {
-      if let Type2::Typename { ident, .. } = &tc.type1.type2 {
-        is_ident_b64url_data_type(cddl, ident)
-      } else {
-        false
-      }
-    }),
-    _ => false,
-  })
+  alias_chain_any(cddl, ident, &|ident| matches!(lookup_ident(ident.ident), Token::B64URL))
 }
 
 /// Is the given identifier associated with a tdate data type
 pub fn is_ident_tdate_data_type(cddl: &CDDL, ident: &Identifier) -> bool {
-  if let Token::TDATE = lookup_ident(ident.ident) {
-    return true;
-  }
-
-  cddl.rules.iter().any(|r| match r {
-    Rule::Type { rule, .. } if &rule.name == ident => rule.value.type_choices.iter().any(|tc| {
-      if let Type2::Typename { ident, .. } = &tc.type1.type2 {
-        is_ident_tdate_data_type(cddl, ident)
-      } else {
-        false
-      }
-    }),
-    _ => false,
-  })
+  alias_chain_any(cddl, ident, &|ident| matches!(lookup_ident(ident.ident), Token::TDATE))
 }
 
 /// Is the given identifier associated with a time data type
 pub fn is_ident_time_data_type(cddl: &CDDL, ident: &Identifier) -> bool {
-  if let Token::TIME = lookup_ident(ident.ident) {
-    return true;
-  }
-
-  cddl.rules.iter().any(|r| match r {
-    Rule::Type { rule, .. } if &rule.name == ident => rule.value.type_choices.iter().any(|tc| {
-      if let Type2::Typename { ident, .. } = &tc.type1.type2 {
-        is_ident_time_data_type(cddl, ident)
-      } else {
-        false
-      }
-    }),
-    _ => false,
-  })
+  alias_chain_any(cddl, ident, &|ident| matches!(lookup_ident(ident.ident), Token::TIME))
 }
 
 /// Is the given identifier associated with a decfrac data type
 pub fn is_ident_decfrac_data_type(cddl: &CDDL, ident: &Identifier) -> bool {
-  if let Token::DECFRAC = lookup_ident(ident.ident) {
-    return true;
-  }
-
-  cddl.rules.iter().any(|r| match r {
-    Rule::Type { rule, .. } if &rule.name == ident => rule.value.type_choices.iter().any(|tc| {
-      if let Type2::Typename { ident, .. } = &tc.type1.type2 {
-        is_ident_decfrac_data_type(cddl, ident)
-      } else {
-        false
-      }
-    }),
-    _ => false,
-  })
+  alias_chain_any(cddl, ident, &|ident| matches!(lookup_ident(ident.ident), Token::DECFRAC))
 }
 
 /// Is the given identifier associated with a bigfloat data type
 pub fn is_ident_bigfloat_data_type(cddl: &CDDL, ident: &Identifier) -> bool {
-  if let Token::BIGFLOAT = lookup_ident(ident.ident) {
-    return true;
-  }
-
-  cddl.rules.iter().any(|r| match r {
-    Rule::Type { rule, .. } if &rule.name == ident => rule.value.type_choices.iter().any(|tc| {
-      if let Type2::Typename { ident, .. } = &tc.type1.type2 {
-        is_ident_bigfloat_data_type(cddl, ident)
-      } else {
-        false
-      }
-    }),
-    _ => false,
-  })
+  alias_chain_any(cddl, ident, &|ident| matches!(lookup_ident(ident.ident), Token::BIGFLOAT))
 }
 
 /// Is the given identifier associated with a numeric data type
 pub fn is_ident_numeric_data_type(cddl: &CDDL, ident: &Identifier) -> bool {
-  if let Token::UINT
-  | Token::NINT
-  | Token::INTEGER
-  | Token::INT
-  | Token::NUMBER
-  | Token::FLOAT
-  | Token::FLOAT16
-  | Token::FLOAT32
-  | Token::FLOAT64
-  | Token::FLOAT1632
-  | Token::FLOAT3264
-  | Token::UNSIGNED = lookup_ident(ident.ident)
-  {
-    return true;
-  }
-
-  cddl.rules.iter().any(|r| match r {
-    Rule::Type { rule, .. } if rule.name == *ident => rule.value.type_choices.iter().any(|tc| {
-      if let Type2::Typename { ident, .. } = &tc.type1.type2 {
-        is_ident_numeric_data_type(cddl, ident)
-      } else {
-        false
-      }
-    }),
-    _ => false,
-  })
+  alias_chain_any(cddl, ident, &|ident| matches!(lookup_ident(ident.ident), Token::UINT | Token::NINT | Token::INTEGER | Token::INT | Token::NUMBER | Token::FLOAT | Token::FLOAT16 | Token::FLOAT32 | Token::FLOAT64 | Token::FLOAT1632 | Token::FLOAT3264 | Token::UNSIGNED))
 }
 
 /// Is the given identifier associated with a uint data type
 pub fn is_ident_uint_data_type(cddl: &CDDL, ident: &Identifier) -> bool {
   // `unsigned = uint / biguint`: as far as plain integers go it is uint
-  if let Token::UINT | Token::UNSIGNED = lookup_ident(ident.ident) {
-    return true;
-  }
-
-  cddl.rules.iter().any(|r| match r {
-    Rule::Type { rule, .. } if rule.name == *ident => rule.value.type_choices.iter().any(|tc| {
-      if let Type2::Typename { ident, .. } = &tc.type1.type2 {
-        is_ident_uint_data_type(cddl, ident)
-      } else {
-        false
-      }
-    }),
-    _ => false,
-  })
+  alias_chain_any(cddl, ident, &|ident| matches!(lookup_ident(ident.ident), Token::UINT | Token::UNSIGNED))
 }
 
 /// Is the given identifier associated with a nint data type
 pub fn is_ident_nint_data_type(cddl: &CDDL, ident: &Identifier) -> bool {
-  if let Token::NINT = lookup_ident(ident.ident) {
-    return true;
-  }
-
-  cddl.rules.iter().any(|r| match r {
-    Rule::Type { rule, .. } if rule.name == *ident => rule.value.type_choices.iter().any(|tc| {
-      if let Type2::Typename { ident, .. } = &tc.type1.type2 {
-        is_ident_nint_data_type(cddl, ident)
-      } else {
-        false
-      }
-    }),
-    _ => false,
-  })
+  alias_chain_any(cddl, ident, &|ident| matches!(lookup_ident(ident.ident), Token::NINT))
 }
 
 /// Numbers are defined as `number = int / float`
@@ -1066,45 +934,19 @@ pub fn ident_numeric_kind(cddl: &CDDL, ident: &Identifier) -> Option<NumericKind
   note = "not mutually exclusive with is_ident_float_data_type (`number` matches both); use ident_numeric_kind and handle NumericKind::Both"
 )]
 pub fn is_ident_integer_data_type(cddl: &CDDL, ident: &Identifier) -> bool {
-  if let Token::INT | Token::INTEGER | Token::NINT | Token::UINT | Token::NUMBER | Token::UNSIGNED =
-    lookup_ident(ident.ident)
-  {
-    return true;
-  }
-
-  cddl.rules.iter().any(|r| match r {
-    Rule::Type { rule, .. } if rule.name == *ident => rule.value.type_choices.iter().any(|tc| {
-      if let Type2::Typename { ident, .. } = &tc.type1.type2 {
-        is_ident_integer_data_type(cddl, ident)
-      } else {
-        false
-      }
-    }),
-    _ => false,
-  })
+  alias_chain_any(cddl, ident, &|ident| matches!(lookup_ident(ident.ident), Token::INT | Token::INTEGER | Token::NINT | Token::UINT | Token::NUMBER | Token::UNSIGNED))
 }
 
 /// Does the given identifier denote a bignum data type that accepts CBOR tag
 /// `tag`? Per the RFC 8610 prelude: `biguint = #6.2(bstr)`,
 /// `bignint = #6.3(bstr)` and `bigint = biguint / bignint`.
 pub fn ident_accepts_bignum_tag(cddl: &CDDL, ident: &Identifier, tag: u64) -> bool {
-  match lookup_ident(ident.ident) {
-    Token::BIGUINT => return tag == 2,
-    Token::BIGNINT => return tag == 3,
+  alias_chain_any(cddl, ident, &|ident| match lookup_ident(ident.ident) {
+    Token::BIGUINT => tag == 2,
+    Token::BIGNINT => tag == 3,
     // RFC 8610 Appendix D: integer = int / bigint, unsigned = uint / biguint
-    Token::BIGINT | Token::INTEGER => return tag == 2 || tag == 3,
-    Token::UNSIGNED => return tag == 2,
-    _ => (),
-  }
-
-  cddl.rules.iter().any(|r| match r {
-    Rule::Type { rule, .. } if rule.name == *ident => rule.value.type_choices.iter().any(|tc| {
-      if let Type2::Typename { ident, .. } = &tc.type1.type2 {
-        ident_accepts_bignum_tag(cddl, ident, tag)
-      } else {
-        false
-      }
-    }),
+    Token::BIGINT | Token::INTEGER => tag == 2 || tag == 3,
+    Token::UNSIGNED => tag == 2,
     _ => false,
   })
 }
@@ -1119,81 +961,22 @@ pub fn is_ident_bignum_data_type(cddl: &CDDL, ident: &Identifier) -> bool {
   note = "not mutually exclusive with is_ident_integer_data_type (`number` matches both); use ident_numeric_kind and handle NumericKind::Both"
 )]
 pub fn is_ident_float_data_type(cddl: &CDDL, ident: &Identifier) -> bool {
-  if let Token::FLOAT
-  | Token::FLOAT16
-  | Token::FLOAT1632
-  | Token::FLOAT32
-  | Token::FLOAT3264
-  | Token::FLOAT64
-  | Token::NUMBER = lookup_ident(ident.ident)
-  {
-    return true;
-  }
-
-  cddl.rules.iter().any(|r| match r {
-    Rule::Type { rule, .. } if rule.name == *ident => rule.value.type_choices.iter().any(|tc| {
-      if let Type2::Typename { ident, .. } = &tc.type1.type2 {
-        is_ident_float_data_type(cddl, ident)
-      } else {
-        false
-      }
-    }),
-    _ => false,
-  })
+  alias_chain_any(cddl, ident, &|ident| matches!(lookup_ident(ident.ident), Token::FLOAT | Token::FLOAT16 | Token::FLOAT1632 | Token::FLOAT32 | Token::FLOAT3264 | Token::FLOAT64 | Token::NUMBER))
 }
 
 /// Is the given identifier associated with a string data type
 pub fn is_ident_string_data_type(cddl: &CDDL, ident: &Identifier) -> bool {
-  if let Token::TEXT | Token::TSTR = lookup_ident(ident.ident) {
-    return true;
-  }
-
-  cddl.rules.iter().any(|r| match r {
-    Rule::Type { rule, .. } if rule.name == *ident => rule.value.type_choices.iter().any(|tc| {
-      if let Type2::Typename { ident, .. } = &tc.type1.type2 {
-        is_ident_string_data_type(cddl, ident)
-      } else {
-        false
-      }
-    }),
-    _ => false,
-  })
+  alias_chain_any(cddl, ident, &|ident| matches!(lookup_ident(ident.ident), Token::TEXT | Token::TSTR))
 }
 
 /// Is the given identifier associated with the any type
 pub fn is_ident_any_type(cddl: &CDDL, ident: &Identifier) -> bool {
-  if let Token::ANY = lookup_ident(ident.ident) {
-    return true;
-  }
-
-  cddl.rules.iter().any(|r| match r {
-    Rule::Type { rule, .. } if rule.name == *ident => rule.value.type_choices.iter().any(|tc| {
-      if let Type2::Typename { ident, .. } = &tc.type1.type2 {
-        is_ident_any_type(cddl, ident)
-      } else {
-        false
-      }
-    }),
-    _ => false,
-  })
+  alias_chain_any(cddl, ident, &|ident| matches!(lookup_ident(ident.ident), Token::ANY))
 }
 
 /// Is the given identifier associated with a byte string data type
 pub fn is_ident_byte_string_data_type(cddl: &CDDL, ident: &Identifier) -> bool {
-  if let Token::BSTR | Token::BYTES = lookup_ident(ident.ident) {
-    return true;
-  }
-
-  cddl.rules.iter().any(|r| match r {
-    Rule::Type { rule, .. } if rule.name == *ident => rule.value.type_choices.iter().any(|tc| {
-      if let Type2::Typename { ident, .. } = &tc.type1.type2 {
-        is_ident_byte_string_data_type(cddl, ident)
-      } else {
-        false
-      }
-    }),
-    _ => false,
-  })
+  alias_chain_any(cddl, ident, &|ident| matches!(lookup_ident(ident.ident), Token::BSTR | Token::BYTES))
 }
 
 /// Retrieve number of group entries from a group. This is currently only used
